@@ -14,7 +14,8 @@ Inductive stepk :=
 | SMove (a b : tgt)        (* os.rename(a, b) / a.moveTo(b) *)
 | SChmod (t : tgt)
 | SUnlink (t : tgt)
-| SUnlinkIfLink (t : tgt).  (* if t.islink(): t.remove() *)
+| SUnlinkIfLink (t : tgt)    (* if t.islink(): t.remove()   -- lstat: true for every symlink, dangling or not *)
+| SUnlinkIfExists (t : tgt). (* if t.exists(): t.remove()   -- stat: FOLLOWS symlinks, false for a dangling one *)
 
 (* is FilePath.child(name) followed by `if child.parent() != dir: raise` before the file is used *)
 Inductive guardk := GuardParentEq | NoGuard.
